@@ -538,7 +538,8 @@ async fn observe(dir: &FsPath, all: bool, roots: &[String]) -> Obs {
             o.names.push(if name.starts_with('d') && name.ends_with(".manifest") { "dN.manifest".to_string() } else { name });
         }
         if let Ok(bytes) = std::fs::read(dir.join(&rel)) {
-            if roots.iter().any(|r| contains_bytes(&bytes, r.as_bytes())) {
+            // (an object-store path has no leading slash)
+            if roots.iter().any(|r| contains_bytes(&bytes, r.trim_start_matches('/').as_bytes())) {
                 if c == 'm' {
                     o.leak += 1;
                 }
